@@ -43,7 +43,8 @@ def info(p: int, instance: int | None = None) -> CEMIMPropInfo:
 
 
 def read_con(p: int, tag: int, instance: int | None = None) -> bytes:
-    return CEMIFrame(code=CEMIMessageCode.M_PROP_READ_CON, data=CEMIMPropReadResponse(property_info=info(p, instance), data=bytes((p, tag)))).to_knx()
+    # the data names what the answer is about: property number, 0x40 set when it is for another object instance
+    return CEMIFrame(code=CEMIMessageCode.M_PROP_READ_CON, data=CEMIMPropReadResponse(property_info=info(p, instance), data=bytes((p if instance in (None, P[p][1]) else p | 0x40, tag)))).to_knx()
 
 
 def write_con(p: int) -> bytes:
@@ -209,7 +210,9 @@ def make(kind: str, program: str, with_callback: bool = True, route_back: bool =
             tags = {r.get("tag"): r for r in reqs if "tag" in r}
             for name, (kind_, val, start, end, p, write) in results.items():
                 if kind_ == "ok" and not write:
-                    if len(val) != 2 or val[0] != p:
+                    if len(val) == 2 and val[0] == p | 0x40:
+                        viols.append(("answer-of-other-instance-returned", f"{name}: read of P{p} (instance {P[p][1]}) returned the answer for instance 2: {val.hex()}; events={events}"))
+                    elif len(val) != 2 or val[0] != p:
                         viols.append(("answer-of-other-property-returned", f"{name}: read of P{p} returned {val.hex()}; events={events}"))
                     else:
                         # (an answer produced for an EARLIER request for the very same property is indistinguishable on the wire -
